@@ -7,7 +7,7 @@
 //! string commands, WGL search with memoisation).
 //! The schedules are SAMPLED: the seed fixes the programs of the clients and their yield
 //! patterns, not the interleaving the runtime picks.
-use crate::c03::{apply, h_bytes, h_str, new_state, r1, Op, State};
+use crate::c03::{apply, h_bytes, h_str, new_state, new_state_ctx, r1, Op, State};
 use crate::enc::hex;
 use crate::out::Out;
 use crate::rng::Rng;
@@ -31,7 +31,7 @@ fn spec(state: &Option<Vec<u8>>, op: &Op) -> (Option<Vec<u8>>, String) {
     let bulk = |v: &Vec<u8>| format!("b:{}", hex(v));
     match op.name {
         // (E… / ES… = the same command as a Lua script through EVAL / SCRIPT LOAD + EVALSHA)
-        "GET" | "FGET" | "PGET" | "EGET" | "ESGET" => (state.clone(), state.as_ref().map(bulk).unwrap_or("nil".into())),
+        "GET" | "FGET" | "PGET" | "EGET" | "ESGET" | "XSGET" => (state.clone(), state.as_ref().map(bulk).unwrap_or("nil".into())),
         "SET" | "FSET" | "PSET" | "ESET" | "ESSET" => (Some(op.vals[0].clone()), "ok".into()),
         // one item of a batched call
         "BGET" => (state.clone(), format!("m:[{}]", state.as_ref().map(bulk).unwrap_or("nil".into()))),
@@ -277,6 +277,18 @@ fn corpus_scripts() -> Vec<Case> {
             prog.push((Op::k("EINCR", &k), 0));
             prog.push((Op::k("INCR", &k), 0));
             prog.push((Op::new("BGET", vec![k.clone()], vec![]), 0));
+        }
+        cs.push(Case { n, class: "scripts", programs: vec![prog] });
+    }
+    // a script introduced by EVAL through ONE shard is then used by EVALSHA through the others
+    // (the script cache is node-global state)
+    {
+        let n = 4;
+        let p = pool();
+        let mut prog = vec![(Op::k("EGET", &p[0]), 0)];
+        for k in p.iter().skip(1).take(12) {
+            prog.push((Op::kv("FSET", k, b"v1"), 0));
+            prog.push((Op::k("XSGET", k), 0));
         }
         cs.push(Case { n, class: "scripts", programs: vec![prog] });
     }
@@ -541,6 +553,283 @@ async fn cancel_case(out: &mut Out, rng: &mut Rng, fixed: bool, corpus: bool) {
 
 
 
+// ───────────────────────── timed histories ─────────────────────────
+// Keys get PX / EX deadlines; the simulated clock is advanced by hand BETWEEN phases (all clients
+// idle), so every operation of a phase is invoked at a known virtual time `now`.  The sequential
+// specification of both checkers has a clock: an operation invoked at `now` sees a key iff
+// `now < deadline` — expiry is a function of the invocation time, not an operation.
+
+#[derive(Clone, Debug)]
+struct TEvent {
+    stamp: u64,
+    id: u64,
+    now: u64,
+    inv: Option<Op>,
+    res: Option<String>,
+}
+
+fn timed_line(op: &Op) -> String {
+    match op.name {
+        "SETPX" | "SETEX" => format!("{} {} {} {}", op.name, hex(&op.keys[0]), hex(&op.vals[0]), op.cursor),
+        _ => op.line(),
+    }
+}
+
+async fn apply_timed(st: &State, op: &Op) -> String {
+    use redis_sim::redis::{Command, SDS};
+    let bytes = |v: &Vec<u8>| bytes::Bytes::copy_from_slice(v);
+    match op.name {
+        "SETPX" | "SETEX" => {
+            let mut c = Command::set(String::from_utf8(op.keys[0].clone()).unwrap(), SDS::new(op.vals[0].clone()));
+            if let Command::Set { ref mut ex, ref mut px, .. } = c {
+                if op.name == "SETPX" {
+                    *px = Some(op.cursor as i64);
+                } else {
+                    *ex = Some(op.cursor as i64);
+                }
+            }
+            r1(&st.execute(&c).await)
+        }
+        "BGET" => st.fast_batch_get_pipeline(vec![bytes(&op.keys[0])]).await.first().map(|v| format!("m:[{}]", r1(v))).unwrap_or("m:[e:?missing]".into()),
+        "BSET" => st.fast_batch_set_pipeline(vec![(bytes(&op.keys[0]), bytes(&op.vals[0]))]).await.first().map(|v| format!("m:[{}]", r1(v))).unwrap_or("m:[e:?missing]".into()),
+        _ => apply(st, op).await,
+    }
+}
+
+type TState = Option<(Vec<u8>, Option<u64>)>;
+
+/// the independent timed specification of one key
+fn spec_timed(state: &TState, op: &Op, now: u64) -> (TState, String) {
+    let live: Option<&Vec<u8>> = match state {
+        Some((v, Some(d))) if *d <= now => {
+            let _ = v;
+            None
+        }
+        Some((v, _)) => Some(v),
+        None => None,
+    };
+    let bulk = |v: &Vec<u8>| format!("b:{}", hex(v));
+    match op.name {
+        "GET" | "FGET" | "PGET" | "EGET" | "ESGET" => (state.clone(), live.map(bulk).unwrap_or("nil".into())),
+        "BGET" | "MGET" => (state.clone(), format!("m:[{}]", live.map(bulk).unwrap_or("nil".into()))),
+        "EXISTS" => (state.clone(), format!("i:{}", live.is_some() as u8)),
+        "SET" | "FSET" | "PSET" | "ESET" | "ESSET" => (Some((op.vals[0].clone(), None)), "ok".into()),
+        "BSET" => (Some((op.vals[0].clone(), None)), "m:[ok]".into()),
+        "SETPX" => (Some((op.vals[0].clone(), Some(now + op.cursor))), "ok".into()),
+        "SETEX" => (Some((op.vals[0].clone(), Some(now + 1000 * op.cursor))), "ok".into()),
+        x => panic!("timed spec {}", x),
+    }
+}
+
+struct TKOp {
+    op: Op,
+    now: u64,
+    inv: usize,
+    res: Option<(usize, String)>,
+}
+
+fn linearizable_timed(ops: &[TKOp]) -> bool {
+    fn go(ops: &[TKOp], done: u64, state: &TState, memo: &mut HashSet<(u64, TState)>) -> bool {
+        if ops.iter().enumerate().all(|(i, o)| done >> i & 1 == 1 || o.res.is_none()) {
+            return true;
+        }
+        if !memo.insert((done, state.clone())) {
+            return false;
+        }
+        let first_res = ops.iter().enumerate().filter(|(i, _)| done >> i & 1 == 0).filter_map(|(_, o)| o.res.as_ref().map(|r| r.0)).min().unwrap_or(usize::MAX);
+        for (i, o) in ops.iter().enumerate() {
+            if done >> i & 1 == 1 || o.inv > first_res {
+                continue;
+            }
+            let (s2, r) = spec_timed(state, &o.op, o.now);
+            if let Some((_, obs)) = &o.res {
+                if *obs != r {
+                    continue;
+                }
+            }
+            if go(ops, done | 1 << i, &s2, memo) {
+                return true;
+            }
+        }
+        false
+    }
+    assert!(ops.len() <= 60);
+    go(ops, 0, &None, &mut HashSet::new())
+}
+
+/// phases: (virtual time, one program per client); the clock moves only between phases
+struct TimedCase {
+    n: usize,
+    label: String,
+    phases: Vec<(u64, Vec<Vec<Op>>)>,
+}
+
+fn top(name: &'static str, k: &[u8], v: &[u8], num: u64) -> Op {
+    let mut o = Op::new(name, vec![k.to_vec()], if v.is_empty() && !matches!(name, "SET" | "FSET" | "PSET" | "BSET" | "ESET" | "ESSET" | "SETPX" | "SETEX") { vec![] } else { vec![v.to_vec()] });
+    o.cursor = num;
+    o
+}
+
+const READS: [&str; 8] = ["GET", "EXISTS", "FGET", "PGET", "BGET", "MGET", "EGET", "ESGET"];
+
+fn timed_keys(n: usize) -> (Vec<u8>, Vec<u8>, Vec<u8>) {
+    let p = pool();
+    let k = p[0].clone();
+    let same = p.iter().skip(1).find(|x| h_bytes(x, n) == h_bytes(&k, n)).cloned().unwrap_or_else(|| p[1].clone());
+    let other = p.iter().find(|x| h_bytes(x, n) != h_bytes(&k, n)).cloned().unwrap_or_else(|| p[2].clone());
+    (k, same, other)
+}
+
+/// the seed C02-pooled-get-no-sweep-and-no-probe: a deadline, the clock far past it, then the key
+/// is read through every path (one client, sequentially) — without traffic, with traffic to
+/// another shard, with traffic to the key's own shard
+fn timed_corpus() -> Vec<TimedCase> {
+    let mut cs = Vec::new();
+    for (label, traffic) in [("none", 0), ("other-shard", 1), ("same-shard", 2)] {
+        let n = 4;
+        let (k, same, other) = timed_keys(n);
+        let mut late: Vec<Op> = Vec::new();
+        match traffic {
+            1 => late.push(top("GET", &other, b"", 0)),
+            2 => late.push(top("FGET", &same, b"", 0)),
+            _ => {}
+        }
+        late.push(top("PGET", &k, b"", 0));
+        late.push(top("GET", &k, b"", 0));
+        for r in READS {
+            late.push(top(r, &k, b"", 0));
+        }
+        cs.push(TimedCase { n, label: format!("corpus:ttl=far:traffic={}", label), phases: vec![(0, vec![vec![top("SETPX", &k, b"v", 100)]]), (500, vec![late])] });
+    }
+    cs
+}
+
+fn timed_random(rng: &mut Rng) -> TimedCase {
+    let n = *rng.pick(&[2usize, 4, 8]);
+    let (k, same, other) = timed_keys(n);
+    let t0 = rng.below(50);
+    let (set, ttl) = if rng.chance(1, 4) { (top("SETEX", &k, b"v", 1), 1000u64) } else {
+        let ms = *rng.pick(&[1u64, 100, 250]);
+        (top("SETPX", &k, b"v", ms), ms)
+    };
+    let deadline = t0 + ttl;
+    let (ttl_state, t1) = match rng.below(4) {
+        0 => ("before", deadline - 1),
+        1 => ("at", deadline),
+        2 => ("after", deadline + 1),
+        _ => ("far", deadline + 400 + rng.below(3000)),
+    };
+    let traffic = *rng.pick(&["none", "other-shard", "same-shard"]);
+    let mut phases: Vec<(u64, Vec<Vec<Op>>)> = vec![(t0, vec![vec![set]])];
+    match traffic {
+        "other-shard" => phases.push((t1, vec![vec![top(*rng.pick(&["GET", "FGET", "SET"]), &other, b"o", 0)]])),
+        "same-shard" => phases.push((t1, vec![vec![top(*rng.pick(&["GET", "FGET", "PGET", "SET"]), &same, b"o", 0)]])),
+        _ => {}
+    }
+    // concurrent readers through random paths (≤ 5 operations on the key)
+    let readers = rng.range(2, 4) as usize;
+    let mut progs: Vec<Vec<Op>> = vec![Vec::new(); readers];
+    for i in 0..rng.range(2, 5) as usize {
+        progs[i % readers].push(top(*rng.pick(&READS), &k, b"", 0));
+    }
+    phases.push((t1, progs));
+    // later: a writer (which clears the deadline) racing with readers
+    if rng.chance(1, 2) {
+        let t2 = t1 + rng.below(300);
+        let w = top(*rng.pick(&["SET", "FSET", "PSET", "BSET", "ESSET"]), &k, b"w", 0);
+        let mut progs: Vec<Vec<Op>> = vec![vec![w]];
+        for _ in 0..rng.range(1, 3) {
+            progs.push(vec![top(*rng.pick(&READS), &k, b"", 0)]);
+        }
+        phases.push((t2, progs));
+        phases.push((t2 + 5000, vec![vec![top(*rng.pick(&READS), &k, b"", 0)]]));
+    }
+    TimedCase { n, label: format!("ttl={}:traffic={}", ttl_state, traffic), phases }
+}
+
+async fn run_timed_case(out: &mut Out, case: TimedCase) {
+    let (st, sim) = new_state_ctx(case.n);
+    let st = Arc::new(st);
+    let clock = Arc::new(AtomicU64::new(1));
+    let mut events: Vec<TEvent> = Vec::new();
+    let mut vnow = 0u64;
+    let mut clients = 0usize;
+    for (t, progs) in &case.phases {
+        if *t > vnow {
+            sim.advance_by(redis_sim::io::Duration::from_millis(*t - vnow));
+            vnow = *t;
+        }
+        clients = clients.max(progs.len());
+        let mut handles = Vec::new();
+        for prog in progs.iter().cloned() {
+            let (st, clock) = (st.clone(), clock.clone());
+            let now = vnow;
+            handles.push(tokio::spawn(async move {
+                let mut evs = Vec::new();
+                for op in prog {
+                    out_count_path(&op);
+                    let id = clock.fetch_add(1, Ordering::SeqCst);
+                    let r = apply_timed(&st, &op).await;
+                    let done = clock.fetch_add(1, Ordering::SeqCst);
+                    evs.push(TEvent { stamp: id, id, now, inv: Some(op), res: None });
+                    evs.push(TEvent { stamp: done, id, now, inv: None, res: Some(r) });
+                    tokio::task::yield_now().await;
+                }
+                evs
+            }));
+        }
+        for h in handles {
+            events.extend(h.await.expect("timed client"));
+        }
+    }
+    events.sort_by_key(|e| e.stamp);
+    out.op("NEW".into(), "ok".into());
+    let mut text = Vec::new();
+    for e in &events {
+        let l = match (&e.inv, &e.res) {
+            (Some(op), _) => {
+                out.count(&format!("timed-op:{}", op.name));
+                format!("I {} T {} {}", e.id, e.now, timed_line(op))
+            }
+            (_, Some(r)) => format!("RT {} {}", e.id, r),
+            _ => unreachable!(),
+        };
+        text.push(l.clone());
+        out.op(l, "ok".into());
+    }
+    // independent oracle, per key
+    let mut pk: BTreeMap<Vec<u8>, Vec<TKOp>> = BTreeMap::new();
+    let mut at: BTreeMap<u64, (Vec<u8>, usize)> = BTreeMap::new();
+    for (pos, e) in events.iter().enumerate() {
+        if let Some(op) = &e.inv {
+            let v = pk.entry(op.keys[0].clone()).or_default();
+            v.push(TKOp { op: op.clone(), now: e.now, inv: pos, res: None });
+            at.insert(e.id, (op.keys[0].clone(), v.len() - 1));
+        } else if let Some(r) = &e.res {
+            let (k, i) = at.get(&e.id).unwrap().clone();
+            pk.get_mut(&k).unwrap()[i].res = Some((pos, r.clone()));
+        }
+    }
+    let bad: Vec<String> = pk.iter().filter(|(_, ops)| !linearizable_timed(ops)).map(|(k, _)| String::from_utf8_lossy(k).to_string()).collect();
+    let lin = bad.is_empty();
+    out.op("CHECK".into(), if lin { "lin".into() } else { "not-lin".into() });
+    out.count("class:timed");
+    out.count(&format!("timed:{}", case.label));
+    out.count(&format!("shards:{}", case.n));
+    out.count(if lin { "verdict:lin" } else { "verdict:not-lin" });
+    if !lin {
+        out.violation(
+            &format!("C02:not-linearizable:timed:shards={}", case.n),
+            &format!("{} shards, {}: with deadlines and the clock advanced between phases, the history of key(s) {} admits no linearization (an operation invoked at virtual time t sees a key iff t < its deadline)", case.n, case.label, bad.join(",")),
+            json!({"shards": case.n, "class": "timed", "pattern": case.label, "history": text}),
+        );
+    }
+    out.case(&text.join(";"), true);
+    out.sample(json!({"shards": case.n, "class": "timed", "clients": clients, "history": text.iter().take(16).collect::<Vec<_>>()}));
+}
+
+fn out_count_path(_op: &Op) {}
+
 pub fn run(a: &Args) {
     let mut out = Out::new(&a.out);
     let mut rng = Rng::new(a.seed);
@@ -557,12 +846,17 @@ pub fn run(a: &Args) {
             all_hit
         };
         out.extra.insert("hash_key_delegates_to_hash_key_bytes".into(), json!(fixed));
+        crate::c03::init_get_script_sha().await;
         run_case(&mut out, corpus(fixed), fixed).await;
         for c in corpus_batch() {
             run_case(&mut out, c, fixed).await;
         }
         for c in corpus_scripts() {
             run_case(&mut out, c, fixed).await;
+        }
+        // time: deadlines and a hand-driven clock
+        for c in timed_corpus() {
+            run_timed_case(&mut out, c).await;
         }
         // cancellations: the fixed case first, then a few random ones
         cancel_case(&mut out, &mut Rng::new(0xC02), fixed, true).await;
@@ -573,7 +867,11 @@ pub fn run(a: &Args) {
             if i % 4000 == 1999 {
                 cancel_case(&mut out, &mut r, fixed, false).await;
             }
+            if i % 8 == 3 {
+                let c = timed_random(&mut r);
+                run_timed_case(&mut out, c).await;
+            }
         }
     });
-    out.finish("case = one concurrent history: 2..8 client tasks (multi-thread tokio runtime, seeded random yields) issue 6..12 single-key string commands per key over 1..3 keys through execute (plain commands and the same commands as Lua scripts via EVAL and via SCRIPT LOAD + EVALSHA) / fast_* / pooled_fast_* / fast_batch_get_pipeline / fast_batch_set_pipeline (batches of 1..4 keys, every item one single-key operation with the call's interval) of a real ShardedActorState with 1, 2, 4, 8 or 16 shards; invocation/response stamped by a global atomic counter. Schedules are SAMPLED (the seed fixes programs and yield patterns, not the interleaving). plus cancellation histories (a slow script keeps one shard busy, pooled requests to it are abandoned by a timeout while queued and stay pending, then 4..8 single-writer clients run > pool-size pooled SET/GET rounds during and after the stall; every reply is also checked directly against its request). distinct by the stamped history text; non-trivial iff two operations on one key overlap in real time and the key is written, or an operation was abandoned");
+    out.finish("case = one concurrent history: 2..8 client tasks (multi-thread tokio runtime, seeded random yields) issue 6..12 single-key string commands per key over 1..3 keys through execute (plain commands and the same commands as Lua scripts via EVAL and via SCRIPT LOAD + EVALSHA) / fast_* / pooled_fast_* / fast_batch_get_pipeline / fast_batch_set_pipeline (batches of 1..4 keys, every item one single-key operation with the call's interval) of a real ShardedActorState with 1, 2, 4, 8 or 16 shards; invocation/response stamped by a global atomic counter. Schedules are SAMPLED (the seed fixes programs and yield patterns, not the interleaving). plus TIMED histories (a key gets a PX / EX deadline; the simulated clock is advanced by hand between phases to just before / at / just past / far past it, with no traffic, traffic to another shard or traffic to the key's own shard in between; then 2..4 clients read the key concurrently through generic GET/EXISTS/MGET, fast, pooled, batched and script (EVAL, EVALSHA) paths, optionally racing a writer; both checkers use a sequential specification with a clock: an operation invoked at virtual time t sees a key iff t < deadline; pattern distribution under timed:*); plus cancellation histories (a slow script keeps one shard busy, pooled requests to it are abandoned by a timeout while queued and stay pending, then 4..8 single-writer clients run > pool-size pooled SET/GET rounds during and after the stall; every reply is also checked directly against its request). distinct by the stamped history text; non-trivial iff two operations on one key overlap in real time and the key is written, or an operation was abandoned");
 }
